@@ -103,6 +103,9 @@ func cmdCheck(args []string) int {
 	var ids []string
 	if id == "all" {
 		for k := range registry {
+			if strings.HasPrefix(k, "DBG") {
+				continue // debugging aids, never part of a verdict
+			}
 			ids = append(ids, k)
 		}
 		sort.Strings(ids)
